@@ -112,14 +112,21 @@ PROPS["C03"] = dict(
         "a Go panic is reported as the outcome `panic`, which never equals an answer of S",
     ],
     manifest=dict(
-        level_text="Lean theorems for all inputs: the structure check of indexed attestations as coded accepts exactly the spec's predicate, "
-                   "IsSlashableAttestationData is sound, ComputeDomain/ComputeSigningRoot separate (domain type, fork version, genesis root, object) "
-                   "up to an explicit hash collision, and the modelled loops/indexing/divisions cannot panic or run away (M_total); plus a "
-                   "differential run of the real PostSlotTransition against the executable Lean specification S on thousands of mutants of valid "
-                   "blocks of all five forks, with per-rule counts of which spec rule rejected each mutant first",
+        level_text="Lean theorems for all inputs: every block operation of the hand model M of zrnt's code simulates the specification S on "
+                   "every fork in the sense Sim (S accepts with a => M accepts with a; S rejects => M returns an error; M never panics and never "
+                   "runs out of fuel), incl. attestation_reject_sound and slashing_reject_sound; the structure check of indexed attestations as "
+                   "coded accepts exactly the spec's predicate, IsSlashableAttestationData is sound, ComputeDomain/ComputeSigningRoot separate "
+                   "(domain type, fork version, genesis root, object) up to an explicit hash collision, modelled loops/indexing/divisions cannot "
+                   "panic or run away (M_total); block-level soundness M_sound_partial for any fork under the per-operation premise OpSteps, and "
+                   "for phase0 with that premise discharged for arbitrary blocks incl. deposits (M_sound_phase0); plus a differential run of the "
+                   "real PostSlotTransition against S on thousands of mutants of valid blocks of all five forks (over-limit MAX_x+1 blocks, "
+                   "payload fields at exact limits, second block at the same slot, exits at the exact age boundary), with per-rule counts of "
+                   "which spec rule rejected each mutant first",
         level_note="trusted: Lean kernel, the specification transcription S, flat state/block exchange formats, signature oracle (real BLS, own "
                    "domain/committee code: this is what exposes a signature accepted under a wrong domain, fork version, chain or key), block mutator; "
-                   "the end-to-end theorem M_sound is stated in full and proved in part, the remaining rules rest on the correspondence only",
+                   "the tie M = Go is by correspondence, not by proof; for altair..deneb whole-block soundness is proved under the OpSteps premise "
+                   "only (M_sound_partial), so that every rejected altair..deneb block is rejected by the code rests on the per-operation "
+                   "theorems plus the correspondence on mutants; M_sound_phase0 assumes a pre-state inside the budgeted invariant P0DInv",
         technique="Lean 4 proof (soundness lemmas, domain separation, totality) + Go/Lean differential correspondence on block mutants",
         design_ref="DESIGN.md 5/C03", engine="lean"),
 )
